@@ -159,6 +159,47 @@ def pred_transcription(case, ctx):
     return len(case["ref"]) != len(case["est"]) and nt
 
 
+@st.composite
+def many_notes_case(draw):
+    return {"seed": draw(st.integers(0, 10 ** 6)), "n": draw(st.sampled_from([150, 520, 700, 1100])), "order": draw(st.sampled_from(["shuffled", "shuffled", "by_track", "sorted"])),
+            "onset_tolerance": draw(st.sampled_from([0.05, 0.0625, 0.125])), "strict": draw(st.booleans())}
+
+
+def pred_many_notes(case, ctx):
+    """Hundreds of notes per side, listed in a realistic non-chronological order (track by track, or shuffled)."""
+    rs = np.random.RandomState(case["seed"])
+    n = case["n"]
+    on = rs.randint(0, 16 * 120, n) / 16.0
+    a = np.c_[on, on + rs.randint(1, 9, n) / 16.0]
+    ap = 440.0 * 2.0 ** (rs.randint(-12, 13, n) / 12.0)
+    keep = rs.rand(n) < 0.8
+    b = a[keep] + rs.choice([0.0, 0.0, 1 / 32, -1 / 32, 1 / 8], (int(keep.sum()), 1))
+    b[:, 0] = np.maximum(b[:, 0], 0.0)
+    b[:, 1] = np.maximum(b[:, 1], b[:, 0] + 1 / 32)
+    bp = ap[keep] * rs.choice([1.0, 1.0, 2.0 ** (1 / 12)], int(keep.sum()))
+    extra = rs.randint(0, 16 * 120, n // 10) / 16.0
+    b = np.r_[b, np.c_[extra, extra + 0.25]]
+    bp = np.r_[bp, np.full(len(extra), 330.0)]
+    if case["order"] == "shuffled":
+        ka, kb = rs.permutation(len(a)), rs.permutation(len(b))
+    elif case["order"] == "by_track":      # low notes first, then high notes, each in time order
+        ka = np.lexsort((a[:, 0], ap > 440.0))
+        kb = np.lexsort((b[:, 0], bp > 440.0))
+    else:
+        ka, kb = np.argsort(a[:, 0], kind="stable"), np.argsort(b[:, 0], kind="stable")
+    a, ap, b, bp = a[ka], ap[ka], b[kb], bp[kb]
+    kw = dict(onset_tolerance=case["onset_tolerance"], strict=case["strict"])
+    nt = _swap3("onset_precision_recall_f1 (%d x %d notes, %s)" % (len(a), len(b), case["order"]), ctx.call(transcription.onset_precision_recall_f1, a, b, **kw),
+                ctx.call(transcription.onset_precision_recall_f1, b, a, **kw), {k: v for k, v in case.items()})
+    p1 = ctx.call(transcription.precision_recall_f1_overlap, a, ap, b, bp, offset_ratio=None, **kw)
+    p2 = ctx.call(transcription.precision_recall_f1_overlap, b, bp, a, ap, offset_ratio=None, **kw)
+    nt |= _swap3("precision_recall_f1_overlap(offset_ratio=None) (%d x %d notes, %s)" % (len(a), len(b), case["order"]), p1[:3], p2[:3], dict(case))
+    ctx.event("order:" + case["order"])
+    if len(a) * len(b) > 2 ** 18:
+        ctx.event("more_than_2^18_note_pairs")
+    return nt and case["order"] != "sorted" and n >= 520
+
+
 def pred_pattern(case, ctx):
     a, b = R.tuples(case["ref"]), R.tuples(case["est"])
     nt = _swap3("establishment_FPR", ctx.call(pattern.establishment_FPR, a, b), ctx.call(pattern.establishment_FPR, b, a), case, "fpr")
@@ -200,6 +241,9 @@ SUBPROPS = [
     SubProp("multipitch", pred_multipitch, strategy=multipitch_case, n=(800, 20000), shards=(2, 8), floor=0.15, rule="same time base; NT = different pitch counts and P != R"),
     SubProp("transcription", pred_transcription, strategy=gt.notes_case, n=(1000, 25000), shards=(2, 8), floor=0.15,
             rule="onset-only and offset_ratio=None matching; NT = different note counts and P != R"),
+    SubProp("transcription_many_notes", pred_many_notes, strategy=many_notes_case, n=(30, 500), shards=(8, 16), floor=0.3,
+            rule="150..1100 notes per side listed track by track or shuffled (data a pure function of a drawn integer seed); onset-only and offset_ratio=None scores with roles exchanged; "
+                 "NT = >= 520 notes, not in onset order, P != R"),
     SubProp("pattern", pred_pattern, strategy=gt.pattern_case, n=(800, 20000), shards=(4, 8), floor=0.15, rule="establishment, occurrence, three-layer; NT = different pattern counts and P != R"),
     SubProp("hierarchy", pred_hierarchy, strategy=hier_case, n=(300, 6000), shards=(4, 8), floor=0.1, rule="T- and L-measures; NT = different numbers of levels and P != R"),
 ]
